@@ -1,6 +1,11 @@
 // Kani harnesses for versatiles_core (overlay; exists only in the scratch copy)
 #![allow(unused_imports, dead_code, clippy::all)]
+pub use crate::types::Blob as BlobT;
+pub mod codec;
 pub mod stubs;
 pub mod util;
 pub mod vmap;
 mod c15;
+mod c19;
+mod c15geo;
+mod c15pyr;
